@@ -76,19 +76,19 @@ Section Model.
     let e := [var V_BYTECTR ty_bytectr (bytectr s); var V_PBLKB ty_pblk (nth idx (pblk s) 0)] in
     let a := eval e gen_assert in
     let e1 := run e gen_stmts in
-    let b := get (fst e1) V_PBLKB in
+    let b := get (renv e1) V_PBLKB in
     let p := upd_byte (pblk s) idx (valN b) in
-    let w := eval (fst e1) gen_wrap_cond in
+    let w := eval (renv e1) gen_wrap_cond in
     let p' := if nonzero (valZ w) then
                 match gen_be64 with
                 | [SBe64 1 off x] =>                      (* be64enc(stream->pblk + off, x) *)
-                  let v := eval (fst e1) x in
+                  let v := eval (renv e1) x in
                   (firstn (N.to_nat off) p ++ be64 (valN v) ++ skipn (N.to_nat off + 8) p, def v)
                 | _ => (p, false)
                 end
               else (p, true) in
-    guard (def a && snd e1 && def b && def w && snd p')
-      (if nonzero (valZ a) then Ok (mkst (bytectr s) (E (fst p')) (fst p')) else AssertFail).
+    guard (def a && rdef e1 && def b && def w && snd p')
+      (if nonzero (valZ a) && rok e1 then Ok (mkst (bytectr s) (E (fst p')) (fst p')) else AssertFail).
 
   (* crypto_aesctr_stream_cipherblock_use: out[i] = in[i] ^ buf[bytemod + i] for i < nbytes, then
      use_stmts; returns (state, bytes written, input left, buflen left) *)
@@ -99,12 +99,12 @@ Section Model.
     let n := N.to_nat nbytes in
     let o := xor_list (firstn n inp) (skipn (N.to_nat bytemod) (buf s)) in
     let e1 := run e use_stmts in
-    let b := get (fst e1) V_BYTECTR in
-    let io := get (fst e1) V_INOFF in
-    let oo := get (fst e1) V_OUTOFF in
-    let bl := get (fst e1) V_BUFLEN in
-    guard (snd e1 && def b && def io && def oo && def bl && Z.eqb (valZ io) (Z.of_N nbytes) && Z.eqb (valZ oo) (Z.of_N nbytes))
-      (Ok (mkst (valN b) (buf s) (pblk s), o, skipn n inp, valN bl)).
+    let b := get (renv e1) V_BYTECTR in
+    let io := get (renv e1) V_INOFF in
+    let oo := get (renv e1) V_OUTOFF in
+    let bl := get (renv e1) V_BUFLEN in
+    guard (rdef e1 && def b && def io && def oo && def bl && Z.eqb (valZ io) (Z.of_N nbytes) && Z.eqb (valZ oo) (Z.of_N nbytes))
+      (if rok e1 then Ok (mkst (valN b) (buf s) (pblk s), o, skipn n inp, valN bl) else AssertFail).
 
   (* crypto_aesctr_stream_pre_wholeblock; the bool is its return value:
        pre_stmts (bytemod = ..); if (pre_cond1) { if (pre_cond2) { use(pre_call1); return 1; }
@@ -112,14 +112,15 @@ Section Model.
   Definition pre_whole (s : st) (inp : list N) (buflen : N) : res (st * list N * list N * N * bool) :=
     let e := env_app [var V_BYTECTR ty_bytectr (bytectr s); var V_BUFLEN pre_ty_buflen buflen] (locals pre_decls) in
     let e1 := run e pre_stmts in
-    let c1 := eval (fst e1) pre_cond1 in
-    let c2 := eval (fst e1) pre_cond2 in
-    let nb1 := eval (fst e1) (fst pre_call1) in
-    let bm1 := eval (fst e1) (snd pre_call1) in
-    let nb2 := eval (fst e1) (fst pre_call2) in
-    let bm2 := eval (fst e1) (snd pre_call2) in
-    guard (snd e1 && def c1)
-      (if nonzero (valZ c1) then
+    let c1 := eval (renv e1) pre_cond1 in
+    let c2 := eval (renv e1) pre_cond2 in
+    let nb1 := eval (renv e1) (fst pre_call1) in
+    let bm1 := eval (renv e1) (snd pre_call1) in
+    let nb2 := eval (renv e1) (fst pre_call2) in
+    let bm2 := eval (renv e1) (snd pre_call2) in
+    guard (rdef e1 && def c1)
+      (if negb (rok e1) then AssertFail else
+       if nonzero (valZ c1) then
          guard (def c2)
            (if nonzero (valZ c2) then
               guard (def nb1 && def bm1)
@@ -165,14 +166,20 @@ Section Model.
             Ok (s2, o))
        else Ok (s, [])).
 
-  (* crypto_aesctr_stream, software path: returns (state, bytes written to outbuf) *)
-  Definition stream (s : st) (inp : list N) : res (st * list N) :=
+  (* crypto_aesctr_stream, software path after its leading `if (c) return;` statements (sw_early;
+     none in the code as it is): returns (state, bytes written to outbuf) *)
+  Definition stream_main (s : st) (inp : list N) : res (st * list N) :=
     let buflen := N.of_nat (length inp) in
     let* (s1, o1, rest, bl, done) := pre_whole s inp buflen in
     if done then Ok (s1, o1) else
     let* (s2, o2, rest2, bl2) := whole (length inp) s1 rest bl in
     let* (s3, o3) := post_whole s2 rest2 bl2 in
     Ok (s3, o1 ++ o2 ++ o3).
+
+  Definition stream (s : st) (inp : list N) : res (st * list N) :=
+    let early := any_true [var V_BYTECTR ty_bytectr (bytectr s);
+                           var V_BUFLEN sw_ty_buflen (N.of_nat (length inp))] sw_early in
+    guard (snd early) (if fst early then Ok (s, []) else stream_main s inp).
 
   (* ---------------------------------------------------------------- crypto_aesctr_aesni.c *)
   (* the do { be64enc(arr, bexpr); <__m128i statements>; body } while (wb_cond) loop; returns
@@ -194,43 +201,54 @@ Section Model.
         let e0 := set e V_INOFF U64 0 in
         let e0' := set (fst e0) V_OUTOFF U64 0 in
         let e1 := run (fst e0') body in                                    (* block_counter++; *inbuf += 16; .. *)
-        let io := get (fst e1) V_INOFF in
-        let oo := get (fst e1) V_OUTOFF in
-        let cnd := eval (fst e1) wb_cond in
-        guard (def c && snd e0 && snd e0' && snd e1 && def io && def oo && def cnd &&
+        let io := get (renv e1) V_INOFF in
+        let oo := get (renv e1) V_OUTOFF in
+        let cnd := eval (renv e1) wb_cond in
+        guard (def c && snd e0 && snd e0' && rdef e1 && def io && def oo && def cnd &&
                Z.eqb (valZ io) 16 && Z.eqb (valZ oo) 16)
-          (if nonzero (valZ cnd) then
-             let* (e2, o', rest, arr') := ni_loop f nonce_be bexpr body (fst e1) (skipn 16 inp) in
+          (if negb (rok e1) then AssertFail else
+           if nonzero (valZ cnd) then
+             let* (e2, o', rest, arr') := ni_loop f nonce_be bexpr body (renv e1) (skipn 16 inp) in
              Ok (e2, o ++ o', rest, arr')
-           else Ok (fst e1, o, skipn 16 inp, arr))
+           else Ok (renv e1, o, skipn 16 inp, arr))
       end
     end.
 
   (* crypto_aesctr_aesni_stream_wholeblocks: wb_prologue; the loop; wb_epilogue (its scalar
-     statements in source order and memcpy(stream->pblk + off, arr, len)) *)
+     statements in source order and the one statement that writes the counter back into
+     stream->pblk: memcpy(stream->pblk + off, arr, len) or be64enc(stream->pblk + off, x)) *)
   Definition wholeblocks_aesni (s : st) (inp : list N) (buflen : N)
     : res (st * list N * list N * N) :=
     let nonce_be := load_si64 (pblk s) in
     let e := env_app [var V_BYTECTR ty_bytectr (bytectr s); var V_BUFLEN wb_ty_buflen buflen;
                       var V_INOFF U64 0; var V_OUTOFF U64 0] (locals wb_decls) in
-    match body_parts wb_body, the_memcpy wb_epilogue with
-    | Some (bexpr, body), Some (off, len) =>
+    match body_parts wb_body, count_writeback wb_epilogue with
+    | Some (bexpr, body), Some 1%nat =>
       let e1 := run e wb_prologue in
-      guard (snd e1)
-        (let* (e2, o, rest, arr) := ni_loop (S (length inp)) nonce_be bexpr body (fst e1) inp in
+      guard (rdef e1)
+        (if negb (rok e1) then AssertFail else
+         let* (e2, o, rest, arr) := ni_loop (S (length inp)) nonce_be bexpr body (renv e1) inp in
          let e3 := run e2 wb_epilogue in
-         let b := get (fst e3) V_BYTECTR in
-         let bl := get (fst e3) V_BUFLEN in
+         let b := get (renv e3) V_BYTECTR in
+         let bl := get (renv e3) V_BUFLEN in
          let p := pblk s in
-         guard (snd e3 && def b && def bl)
-           (Ok (mkst (valN b) (buf s)
-                     (firstn (N.to_nat off) p ++ firstn (N.to_nat len) arr ++ skipn (N.to_nat off + N.to_nat len) p),
+         let w := match writeback e2 wb_epilogue with
+                  | Some (WbCopy off len) => (N.to_nat off, firstn (N.to_nat len) arr, true)
+                  | Some (WbEnc off v d) => (N.to_nat off, be64 (Z.to_N v), d)
+                  | None => (O, [], false)
+                  end in
+         let off := fst (fst w) in
+         let bytes := snd (fst w) in
+         guard (rdef e3 && def b && def bl && snd w)
+           (if negb (rok e3) then AssertFail else
+            Ok (mkst (valN b) (buf s)
+                     (firstn off p ++ bytes ++ skipn (off + length bytes) p),
                 o, rest, valN bl)))
     | _, _ => Fault
     end.
 
-  (* crypto_aesctr_aesni_stream:  pre; if (ni_cond) wholeblocks; post *)
-  Definition stream_aesni (s : st) (inp : list N) : res (st * list N) :=
+  (* crypto_aesctr_aesni_stream:  [if (c) return;]* (ni_early)  pre; if (ni_cond) wholeblocks; post *)
+  Definition stream_aesni_main (s : st) (inp : list N) : res (st * list N) :=
     let buflen := N.of_nat (length inp) in
     let* (s1, o1, rest, bl, done) := pre_whole s inp buflen in
     if done then Ok (s1, o1) else
@@ -239,6 +257,11 @@ Section Model.
        guard (def c) (if nonzero (valZ c) then wholeblocks_aesni s1 rest bl else Ok (s1, [], rest, bl)) in
     let* (s3, o3) := post_whole s2 rest2 bl2 in
     Ok (s3, o1 ++ o2 ++ o3).
+
+  Definition stream_aesni (s : st) (inp : list N) : res (st * list N) :=
+    let early := any_true [var V_BYTECTR ty_bytectr (bytectr s);
+                           var V_BUFLEN ni_ty_buflen (N.of_nat (length inp))] ni_early in
+    guard (snd early) (if fst early then Ok (s, []) else stream_aesni_main s inp).
 
   (* crypto_aesctr_stream as compiled with / without CPUSUPPORT_X86_AESNI selected:
      if ((buflen >= 16) && (hwaccel == HW_X86_AESNI)) aesni path else software path *)
